@@ -286,3 +286,110 @@ def ignore_carriers(ctx):
                 "note": f"finding-adjusted: ignore patterns come from exactly {sorted(ADJUSTED_IGNORE_FILES)}; found {sorted(files)}, "
                         f"config consulted: {consults}"})
     return obs
+
+
+# =================================================================== documented options are consulted by the code
+# SPEC side, parsed from the user documentation on every run:
+#   * option tables of docs/<linter>-linter.md   (rows  | `option` | type | default | description |)
+#   * the uncommented keys `  option:` of each section of src/templates/thailint_config_template.yaml
+# Code side: the string constants the linter package uses to read a dict  (X.get("k"), X["k"], "k" in X, and the
+# key arguments of the method-property _load_* helpers).  Obligation, one per (package, documented option):
+# the option's first path component is read somewhere in the package -- otherwise the documented switch or threshold
+# cannot possibly take effect.  (That a consulted option has the documented EFFECT is what the from_dict contracts of
+# contracts/c05_config.py and the decision contracts of the other properties state.)
+import re as _re  # noqa: E402
+
+DOC_FILES = {
+    "blocking-async": "blocking_async", "clone-abuse": "clone_abuse", "collection-pipeline": "collection_pipeline",
+    "cqs": "cqs", "dry": "dry", "file-header": "file_header", "file-placement": "file_placement",
+    "improper-logging": "print_statements", "lazy-ignores": "lazy_ignores", "lbyl": "lbyl", "magic-numbers": "magic_numbers",
+    "method-property": "method_property", "nesting": "nesting", "performance": "performance",
+    "print-statements": "print_statements", "srp": "srp", "stateless-class": "stateless_class",
+    "stringly-typed": "stringly_typed", "unwrap-abuse": "unwrap_abuse",
+}
+ROW = _re.compile(r"^\|\s*`([a-z_][a-z0-9_.\-]*)`\s*\|\s*(boolean|integer|array|string|object|list|int|bool|number|dict)[^|]*\|")
+ADJUSTED_UNREAD = {
+    "file_header": {"check_atemporal", "enabled", "mandatory_fields", "recommended_fields"},
+    "performance": {"regex-in-loop.enabled", "string-concat-loop.enabled", "string-concat-loop.report_each_concat",
+                    "regex-in-loop", "string-concat-loop"},
+    "collection_pipeline": {"suggest_comprehension", "suggest_filter"},
+    "dry": {"python_min_constant_occurrences", "typescript_min_constant_occurrences", "cache_enabled", "cache_path"},
+    "lazy_ignores": {"enabled"},
+    "file_placement": {"enabled", "rules"},
+}
+
+
+def documented_options(repo):
+    """package -> {option: where documented}."""
+    out = {}
+    for doc, pkg in DOC_FILES.items():
+        p = os.path.join(repo, "docs", f"{doc}-linter.md")
+        if not os.path.exists(p):
+            continue
+        with open(p, encoding="utf-8") as fh:
+            for line in fh:
+                m = ROW.match(line)
+                if m:
+                    out.setdefault(pkg, {}).setdefault(m.group(1), f"docs/{doc}-linter.md")
+    sec2pkg = {s: pkg for pkg, names in DOCUMENTED.items() for s in names}
+    cur = None
+    with open(os.path.join(repo, "src/templates/thailint_config_template.yaml"), encoding="utf-8") as fh:
+        for line in fh:
+            m = _re.match(r"^([a-z][a-z0-9_-]*):", line)
+            if m:
+                cur = sec2pkg.get(m.group(1))
+                continue
+            m = _re.match(r"^  ([a-z_][a-z0-9_-]*):", line)
+            if m and cur is not None:
+                out.setdefault(cur, {}).setdefault(m.group(1), "src/templates/thailint_config_template.yaml")
+    return out
+
+
+def read_keys_of_package(repo, pkg):
+    keys = set()
+    for root, _dirs, files in os.walk(os.path.join(repo, "src", "linters", pkg)):
+        for fn in files:
+            if not fn.endswith(".py"):
+                continue
+            with open(os.path.join(root, fn), encoding="utf-8") as fh:
+                tree = ast.parse(fh.read())
+            for n in ast.walk(tree):
+                if isinstance(n, ast.Call) and isinstance(n.func, ast.Attribute) and n.func.attr in ("get", "pop", "setdefault") \
+                        and n.args and isinstance(n.args[0], ast.Constant) and isinstance(n.args[0].value, str):
+                    keys.add(n.args[0].value)
+                if isinstance(n, ast.Subscript) and isinstance(n.slice, ast.Constant) and isinstance(n.slice.value, str):
+                    keys.add(n.slice.value)
+                if isinstance(n, ast.Compare) and len(n.ops) == 1 and isinstance(n.ops[0], (ast.In, ast.NotIn)) \
+                        and isinstance(n.left, ast.Constant) and isinstance(n.left.value, str):
+                    keys.add(n.left.value)
+                if isinstance(n, ast.Call) and isinstance(n.func, ast.Name) and n.func.id.startswith("_load_"):
+                    keys.update(a.value for a in n.args[1:3] if isinstance(a, ast.Constant) and isinstance(a.value, str))
+    return keys
+
+
+@custom("c05-documented-options", props=["C05"])
+def documented_options_are_read(ctx):
+    repo = ctx["repo"]
+    t0 = time.time()
+    docs = documented_options(repo)
+    obs = []
+
+    def ob(name, ok, note):
+        obs.append({"name": f"custom:c05-documented-options/{name}", "kind": "custom", "verdict": "discharged" if ok else "refuted",
+                    "solver": "ast-scan", "ms": round((time.time() - t0) * 1000, 1), "note": "" if ok else note, "carries": True,
+                    "witness_confirmed": not ok, "witness": None if ok else note})
+
+    unread_by_pkg = {}
+    for pkg in sorted(docs):
+        keys = read_keys_of_package(repo, pkg)
+        for opt, where in sorted(docs[pkg].items()):
+            ok = opt.split(".")[0] in keys
+            if not ok:
+                unread_by_pkg.setdefault(pkg, set()).add(opt)
+            ob(f"{opt}@{pkg}", ok, f"option `{opt}` of {pkg} is documented in {where} but no code of src/linters/{pkg} reads a key "
+                                   f"{opt.split('.')[0]!r} from any dict")
+    for pkg, expect in sorted(ADJUSTED_UNREAD.items()):
+        got = unread_by_pkg.get(pkg, set())
+        ob(f"adjusted/{pkg}", got == expect, f"finding-adjusted: the documented options of {pkg} that nothing reads are exactly "
+                                             f"{sorted(expect)}; found {sorted(got)}")
+    return obs
